@@ -391,6 +391,20 @@ impl<A: AApi> Sut for ASut<A> {
         // C04: the mutable view of the same bytes shows the same slice
         {
             let mut copy = ABuf::new_skewed(post, 1, 0x22, self.skew());
+            // ... and the same answers to every parameterless query (is_full, is_empty)
+            let flags = guarded(|| {
+                let q = |n: &'static str, c: &mut ABuf| A::call(c.bytes_mut(), &Op::new(n, &[]));
+                let mut c2 = ABuf::new_skewed(post, 1, 0x22, self.skew());
+                ((q("full", &mut c2), q("empty", &mut c2)), (q("rfull", &mut c2), q("rempty", &mut c2)))
+            });
+            match flags {
+                Ok((mu, ro)) => {
+                    if mu != ro {
+                        f.push(Finding { property: "C04", what: format!("after `{}` the mutable view answers (is_full, is_empty) = {:?} but the read-only view of the same bytes answers {:?}", op.text(), mu, ro) });
+                    }
+                }
+                Err(_) => f.push(Finding { property: "C04", what: format!("after `{}` is_full/is_empty panics on one of the views", op.text()) }),
+            }
             match guarded(|| (A::call(copy.bytes_mut(), &Op::new("view", &[])), A::call(copy.bytes_mut(), &Op::new("len", &[])))) {
                 Ok((v2, l2)) => {
                     let want = format!("[{}]", view_q.iter().map(|x| x.to_string()).collect::<Vec<_>>().join(","));
